@@ -102,21 +102,21 @@ func closeQuietly(fs ...func() error) func() {
 func newStack(kind string) (*Stack, error) {
 	switch kind {
 	case "memswarm":
-		r := memswarm.NewRealm(memswarm.WithQueueLen(4))
+		r := memswarm.NewRealm(memswarm.WithQueueLen(8))
 		peer, target := r.NewSwarm(), r.NewSwarm()
 		return wrap[memswarm.Addr](kind, target, peer, target.LocalAddrs()[0], peer.LocalAddrs()[0], target.Close, closeQuietly(peer.Close)), nil
 	case "fragswarm":
-		r := memswarm.NewRealm(memswarm.WithQueueLen(8), memswarm.WithMTU(1<<12))
+		r := memswarm.NewRealm(memswarm.WithQueueLen(128), memswarm.WithMTU(1<<12))
 		peer := fragswarm.New[memswarm.Addr](r.NewSwarm(), 1<<16)
 		target := fragswarm.New[memswarm.Addr](r.NewSwarm(), 1<<16)
 		return wrap[memswarm.Addr](kind, target, peer, target.LocalAddrs()[0], peer.LocalAddrs()[0], target.Close, closeQuietly(peer.Close)), nil
 	case "mbapp":
-		r := memswarm.NewSecureRealm[struct{}](memswarm.WithQueueLen(8), memswarm.WithMTU(1<<12))
+		r := memswarm.NewSecureRealm[struct{}](memswarm.WithQueueLen(128), memswarm.WithMTU(1<<12))
 		peer := mbapp.New[memswarm.Addr, struct{}](r.NewSwarm(struct{}{}), 1<<16)
 		target := mbapp.New[memswarm.Addr, struct{}](r.NewSwarm(struct{}{}), 1<<16)
 		return wrap[memswarm.Addr](kind, p2p.Swarm[memswarm.Addr](target), p2p.Swarm[memswarm.Addr](peer), target.LocalAddrs()[0], peer.LocalAddrs()[0], target.Close, closeQuietly(peer.Close)), nil
 	case "p2pmux":
-		r := memswarm.NewSecureRealm[struct{}](memswarm.WithQueueLen(8))
+		r := memswarm.NewSecureRealm[struct{}](memswarm.WithQueueLen(128))
 		pin, tin := r.NewSwarm(struct{}{}), r.NewSwarm(struct{}{})
 		peer := p2pmux.NewStringSecureAskMux[memswarm.Addr, struct{}](pin).Open("verif")
 		target := p2pmux.NewStringSecureAskMux[memswarm.Addr, struct{}](tin).Open("verif")
@@ -124,7 +124,7 @@ func newStack(kind string) (*Stack, error) {
 		return wrap[memswarm.Addr](kind, p2p.Swarm[memswarm.Addr](target), p2p.Swarm[memswarm.Addr](peer), target.LocalAddrs()[0], peer.LocalAddrs()[0], target.Close,
 			closeQuietly(tin.Close, peer.Close, pin.Close)), nil
 	case "multiswarm":
-		r := memswarm.NewSecureRealm[struct{}](memswarm.WithQueueLen(8))
+		r := memswarm.NewSecureRealm[struct{}](memswarm.WithQueueLen(128))
 		mk := func() p2p.SecureAskSwarm[multiswarm.Addr, struct{}] {
 			return multiswarm.NewSecureAsk[struct{}](map[string]multiswarm.DynSecureAskSwarm[struct{}]{
 				"mem": multiswarm.WrapSecureAskSwarm[memswarm.Addr, struct{}](r.NewSwarm(struct{}{})),
@@ -133,12 +133,12 @@ func newStack(kind string) (*Stack, error) {
 		peer, target := mk(), mk()
 		return wrap[multiswarm.Addr](kind, p2p.Swarm[multiswarm.Addr](target), p2p.Swarm[multiswarm.Addr](peer), target.LocalAddrs()[0], peer.LocalAddrs()[0], target.Close, closeQuietly(peer.Close)), nil
 	case "p2pkeswarm":
-		r := memswarm.NewRealm(memswarm.WithQueueLen(16))
+		r := memswarm.NewRealm(memswarm.WithQueueLen(128))
 		peer := p2pkeswarm.New[memswarm.Addr](r.NewSwarm(), x509Key(1))
 		target := p2pkeswarm.New[memswarm.Addr](r.NewSwarm(), x509Key(2))
 		return wrap[p2pkeswarm.Addr[memswarm.Addr]](kind, target, peer, target.LocalAddrs()[0], peer.LocalAddrs()[0], target.Close, closeQuietly(peer.Close)), nil
 	case "quicswarm":
-		r := memswarm.NewRealm(memswarm.WithQueueLen(64))
+		r := memswarm.NewRealm(memswarm.WithQueueLen(128))
 		peer, err := quicswarm.New[memswarm.Addr](r.NewSwarm(), x509Key(1))
 		if err != nil {
 			return nil, err
